@@ -313,5 +313,6 @@ package prover
 //@   ensures result == nil ==> (forall i :: 0 <= i && i < 8 ==> str.isNum(json.coord(data, i)))
 //@   let inRange = (forall i :: 0 <= i && i < 8 ==> 0 <= str.num(json.coord(data, i)) && str.num(json.coord(data, i)) < bytes.pow256(32))
 //@   ensures result == nil ==> len(p.Proof.raw) >= 256
-//@   ensures result == nil && inRange ==> (forall j :: 0 <= j && j < 256 ==> p.Proof.raw[j] == bytes.beByte(str.num(json.coord(data, j / 32)), 32, j % 32))
-//@   lemmas minLen_def minLen_le beByte_min_lead0 beByte_min_tail
+//@   ensures result == nil && inRange ==> (forall i :: 0 <= i && i < 8 ==> (forall k :: 0 <= k && k < 32 ==>
+//@              p.Proof.raw[32*i + k] == bytes.beByte(str.num(json.coord(data, i)), 32, k)))
+//@   lemmas bitlen_def pow2_mono pow2_256 pow256_32
